@@ -294,6 +294,16 @@ func runC07(w *World, r *Report) {
 		ok := strings.HasPrefix(ap, "param:"+pack.Name()+".EndPositions[]") && strings.HasSuffix(ap, ".MsgID") && lastIndexOf(v, pack)
 		r.Check(ok, "C07-R2", "(*ChannelWriter).HandleReplicateMessage | success return", okRet.Pos(), "msgPack.EndPositions[len-1].MsgID", "the checkpoint returned is "+ap+", not the message id of the pack's last end position")
 		// receive dominates success return
+		// the completion channel belongs to this call alone
+		if recv != nil {
+			own := false
+			for _, x := range backSlice(recv.X, SliceOpts{MaxDepth: 4, NoAggregates: true}) {
+				if mc, isMC := x.(*ssa.MakeChan); isMC && mc.Parent() == hrm {
+					own = true
+				}
+			}
+			r.Check(own, "C07-R4", "(*ChannelWriter).HandleReplicateMessage | completion channel is per call", recv.Pos(), "made inside the call", "the channel on which the call waits for its completion is not created by the call itself (a field or shared channel): with calls in flight on two channels one caller receives the other's result, returning a checkpoint for a pack whose write has not finished and swallowing its error")
+		}
 		r.Check(recv != nil && instrDominates(recv, okRet), "C07-R4", "(*ChannelWriter).HandleReplicateMessage | completion awaited", okRet.Pos(), "the receive from the completion channel dominates the success return", "success is returned without waiting for the downstream completion")
 	}
 	errSources := map[string]ssa.Value{}
